@@ -189,7 +189,7 @@ var forkSkips = map[string]string{
 }
 
 // minSiblings: vacuity guard per property (number of functions that must have been compared; 0 = default of 5).
-var minSiblings = map[string]int{"C09": 3}
+var minSiblings = map[string]int{"C09": 3, "C15": 3}
 
 // Which functions of the vendored HTTP/2 code bear on which property (regular expressions over rendered function names).
 // The sibling comparison of a property is restricted to them, so that a deviation elsewhere alarms only the property it concerns.
@@ -198,6 +198,9 @@ var propFuncs = map[string][]string{
 		`^\(\*http2\.responseWriter(State)?\)`, `^\(\*http2\.requestBody\)`, `^\(\*http2\.serverConn\)\.(writeDataFromHandler|writeFrameFromHandler|writeHeaders|write100ContinueHeaders|newWriterAndRequest|newWriterAndRequestNoBody|newResponseWriter|processData|writeFrameAsync|wroteFrame|runHandler|writeFrame|scheduleFrameWrite|startFrameWrite|resetStream|closeStream|handlerDone|processSettings|processSetting|processSettingInitialWindowSize|processWindowUpdate)$`, `^\\(\\*http2\\.outflow\\)`,
 		`^\(\*http2\.stream\)\.(endStream|copyTrailersToHandlerRequest|processTrailerHeaders)$`, `^http2\.(checkWriteHeaderCode|cloneHeader|foreachHeaderElement)$`, `^\(\*http2\.writeQueue\)`, `^\(http2\.FrameWriteRequest\)\.Consume$`},
 	"C09": {`^\(\*http2\.serverConn\)\.(newWriterAndRequest|newWriterAndRequestNoBody|canonicalHeader)$`},
+	// the User-Agent the probe predicate sees over HTTP/2 is the one the client sent: the request's header map is built
+	// as upstream builds it
+	"C15": {`^\(\*http2\.serverConn\)\.(newWriterAndRequest|newWriterAndRequestNoBody|canonicalHeader)$`},
 	"C18": {`^\(\*?http2\.(writeResHeaders|writePushPromise|write100ContinueHeadersFrame)\)`, `^http2\.(encodeHeaders|encKV|splitHeaderBlock)$`, `^\(\*http2\.serverConn\)\.(HeaderEncoder|processSetting|writeHeaders|write100ContinueHeaders)$`, `^\(\*http2\.Framer\)\.(readMetaFrame|WriteHeaders|WriteContinuation|WritePushPromise)$`},
 	"C10": {`^http2\.(parse|read)`, `^\(\*http2\.Framer\)\.(ReadFrame|readMetaFrame|checkFrameOrder|maxHeaderStringLen|maxHeaderListSize)`, `^\(\*http2\.serverConn\)\.(readFrames|writeFrameAsync|serve|notePanic|runHandler|sendServeMsg|readPreface|processFrameFromReader|setConnState|onSettingsTimer|onIdleTimer|onReadIdleTimer|onShutdownTimer|handlePingTimer)$`,
 		`^\(\*http2\.Server\)\.(ServeConn|serveConn)$`, `^\(\*http2\.stream\)\.(onReadTimeout|onWriteTimeout)$`, `\)\.(writeFrame|staysWithinBuffer|writeHeaderBlock)$`, `^\(\*http2\.(SettingsFrame|MetaHeadersFrame|HeadersFrame|DataFrame|FrameHeader)\)`, `^http2\.(splitHeaderBlock|terminalReadFrameError|isClosedConnError)`},
